@@ -171,6 +171,11 @@ def run(ctx):
     rw = ctx.rule("C30.6", "directory member hashes address each member at its own path (os.walk join idiom)", floor=1)
     for construct, ok, msg, rel, line in walk_join_obligations(repo):
         rw.check(ok, construct, msg, rel, line)
+    re_ = ctx.rule("C30.8", "the files hashed for a directory are (at least) the files that iterating the directory yields", floor=4)
+    from ..filerules import dir_hash_enumeration_obligations
+
+    for construct, ok, msg, rel, line in dir_hash_enumeration_obligations(repo):
+        re_.check(ok, construct, msg, rel, line)
 
     # ---- C30.7 S3 directory listings are bounded by the directory, not by a name prefix ----
     r7 = ctx.rule("C30.7", "S3 listings for a directory use a '/'-terminated prefix or filter the returned keys by '<dir>/'", floor=2)
